@@ -22,7 +22,8 @@ RULE = (
     "(3) subclasses of A's class that add methods (helper methods and convention-named callbacks) are defined, instantiated and driven. Oracle: A's "
     "observations (states, results, exceptions, complete callback logs, argument binding) equal what the reference interpreter gives for H alone - "
     "the quiet world - and sibling instances follow their own interpreter; classes defined by earlier cases of the run stay loaded, so pollution "
-    "left by earlier examples shows too. non-trivial = a noise operation executed between two steps of A that reuses a name A uses, or a sibling "
+    "left by earlier examples shows too. In a quarter of the cases, additionally, MachineMixin model classes in an inheritance chain (a subclass overriding "
+    "state_machine_name, one inheriting it), instantiated in a generated order, must each get the machine class their own class names. non-trivial = a noise operation executed between two steps of A that reuses a name A uses, or a sibling "
     "driven from inside A's callbacks"
 )
 ASSUMPTIONS = [
@@ -150,6 +151,69 @@ class P(Play):
                 raise Fail("cross-instance-call", f"step {self.i}: driving a subclass instance produced records in the recorder of {name}: {ctx.H.log[:2]}")
 
 
+def _django():
+    from .c13 import _django as d
+
+    return d()
+
+
+def mixin_family(case):
+    """Model classes using MachineMixin in an inheritance chain: Doc names machine class A, Legal(Doc) overrides the name with B,
+    Memo(Doc) inherits Doc's name; instances are created in a generated order.  Which machine class a model gets must depend on
+    its own class only, never on which other model classes were instantiated before."""
+    from statemachine.mixins import MachineMixin
+
+    from .. import core
+    from ..core import H
+    from ..scenario import dispose
+
+    fam = case.get("family")
+    if not fam:
+        return None, set()
+    if not _django():
+        return None, {"mixin-family:skipped-no-django"}
+    rs = []
+    try:
+        with warnings.catch_warnings():
+            warnings.simplefilter("ignore")
+            rA, rB = render(fam["specs"][0]), render(fam["specs"][1])
+            rs = [rA, rB]
+            rA.cls.H, rB.cls.H = H(fam["specs"][0]), H(fam["specs"][1])
+            rA.cls.H.objs, rB.cls.H.objs = {}, {}
+            qual = lambda c: f"{c.__module__}.{c.__name__}"
+            Doc = type("Doc", (MachineMixin,), {"state_machine_name": qual(rA.cls), "state_machine_attr": "sm", "__module__": core.__name__})
+            Legal = type("Legal", (Doc,), {"state_machine_name": qual(rB.cls)})
+            Memo = type("Memo", (Doc,), {})
+            want = {"Doc": rA, "Legal": rB, "Memo": rA}
+            made = []
+            for nm in fam["order"]:
+                mcls = {"Doc": Doc, "Legal": Legal, "Memo": Memo}[nm]
+                try:
+                    obj = mcls()
+                except Exception as e:
+                    return outcome_fail("C16:mixin-family", f"creating a {nm} model (after {made}) failed with {type(e).__name__}: {e}", case), set()
+                r = want[nm]
+                sm = obj.sm
+                if type(sm) is not r.cls:
+                    return outcome_fail("C16:mixin-family", f"model class {nm} names machine class {r.cls.__name__} but, created after {made}, got an instance of {type(sm).__name__}", case), set()
+                init = next(s_["id"] for s_ in r.spec["states"] if s_.get("initial"))
+                if sm.model is not obj or sm.current_state.id != init:
+                    return outcome_fail("C16:mixin-family", f"model {nm} created after {made}: machine model/initial state wrong ({sm.current_state.id!r} vs {init!r})", case), set()
+                if sorted(str(e) for e in sm.events) != sorted(r.spec["events"]):
+                    return outcome_fail("C16:mixin-family", f"model {nm} created after {made}: events {sorted(str(e) for e in sm.events)} != {sorted(r.spec['events'])}", case), set()
+                made.append(nm)
+    finally:
+        for r in rs:
+            dispose(r)
+    return None, {"mixin-family", "mixin-family:first=" + fam["order"][0]}
+
+
+def outcome_fail(sig, detail, case):
+    from ..scenario import outcome
+
+    return outcome(False, sig, detail, case=case)
+
+
 def flipped(spec):
     s = copy.deepcopy(spec)
     any_async = gen.is_async_spec(spec)
@@ -209,7 +273,11 @@ def cases(draw, tier):
         elif draw(st.integers(0, 2)) == 0:
             step = dict(step, style="bound")  # through the trigger bound onto the shared target object
         hist.append(step)
-    return {"spec": spec, "cfg": cfg, "history": hist, "noise_specs": [flipped(spec), other], "driver_listener": not is_async, "sib_instance_cbs": draw(st.booleans()), "sib_late_as_ctor": draw(st.booleans()), "shared_target": draw(st.booleans())}
+    family = None
+    if draw(st.integers(0, 3)) == 0:
+        fs = [draw(gen.machine_spec(max_states=3, max_extra=2, providers=("machine",), async_mode="none", sends=False, attach=("conv", "name"))) for _ in range(2)]
+        family = {"specs": fs, "order": draw(st.permutations(["Doc", "Legal", "Memo"]))}
+    return {"spec": spec, "cfg": cfg, "history": hist, "family": family, "noise_specs": [flipped(spec), other], "driver_listener": not is_async, "sib_instance_cbs": draw(st.booleans()), "sib_late_as_ctor": draw(st.booleans()), "shared_target": draw(st.booleans())}
 
 
 def strategy(tier):
@@ -221,4 +289,12 @@ def budget(tier):
 
 
 def run_case(case):
-    return play_case(case, P, PROPERTY)
+    out = play_case(case, P, PROPERTY)
+    if not out["ok"]:
+        return out
+    bad, labels = mixin_family(case)
+    if bad is not None:
+        return bad
+    if labels:
+        out["labels"] = sorted(set(out.get("labels", ())) | labels)
+    return out
